@@ -184,7 +184,7 @@ def post_covar_errors(params, data, errs, B, C, result):
             continue
         rel = abs(g - w) / w
         o.worst('sigma_rel_err', rel)
-        if rel > 1e-6 + cond * 1e-14:
+        if rel > 1e-6 + cond * 1e-13:
             # whose sigma is it?
             hint = None
             for (k2, nm2), w2 in zip(labels, want):
@@ -249,10 +249,10 @@ def cases(seed, tier):
     rng = rng_for(seed, 'c04')
     out = []
     # every free-parameter subset of one component, at special and random angles
-    thetas = [0.0, 45.0, -45.0, 90.0, -90.0, 180.0, None, None] if tier == 'quick' else [0.0, 45.0, -45.0, 90.0, -90.0, 180.0, 30.0, None, None, None, None, None]
+    thetas = [0.0, 45.0, -45.0, 90.0, -90.0, 180.0, None, None] if tier == 'quick' else [0.0, 45.0, -45.0, 90.0, -90.0, 180.0, -180.0, 30.0, 1e-6, 89.999999] + [None] * 40
     for ti, th in enumerate(thetas):
         out.append({'kind': 'subsets1', 'theta': th, 'seed': [seed, 'sub', ti]})
-    n_multi = 40 if tier == 'quick' else 600
+    n_multi = 40 if tier == 'quick' else 8000
     for i in range(n_multi):
         out.append({'kind': 'multi', 'n': int(rng.integers(1, 5)), 'seed': [seed, 'multi', i],
                     'mode': str(rng.choice(['plain', 'errs', 'B', 'C']))})
